@@ -221,7 +221,7 @@ def enabled(tree, meta):
     c = ops.create
     if g < mg:
         m2 = dict(meta, cmds=g + 1)
-        cont = g + 1 < mg
+        cont = True   # the state after the last create is still visited: the read-only commands run there
         for ps in PSETS if g < 2 or meta.get("rich") else PSETS[:5] + PSETS[8:10]:
             out.append((c("", ["md5"], i=ps), m2, cont))
         out.append((c("", ["md5"], ii="patterns.lst"), m2, cont))
